@@ -1,13 +1,14 @@
 #!/usr/bin/env python3
-"""Copies sub-agent deliverables /tmp/mut/Cxx/{patchK.diff,demoK.py,metaK.json} into /verif/seeded/sa-Cxx-K/ (nothing else is read from there)."""
+"""usage: importseeds.py <root> <prefix> Cxx ...   Copies sub-agent deliverables <root>/Cxx/{patchK.diff,demoK.py,metaK.json} into /verif/seeded/sa-Cxx-K/ (nothing else is read from there)."""
 import json, os, shutil, sys
-for pid in sys.argv[1:]:
-    src = f"/tmp/mut/{pid}"
+ROOT, PREFIX = sys.argv[1], sys.argv[2]   # e.g. /tmp/mut2 sb
+for pid in sys.argv[3:]:
+    src = f"{ROOT}/{pid}"
     for k in (1, 2):
         p = f"{src}/patch{k}.diff"
         if not os.path.exists(p):
             print("missing", p); continue
-        d = f"/verif/seeded/sa-{pid}-{k}"
+        d = f"/verif/seeded/{PREFIX}-{pid}-{k}"
         os.makedirs(d, exist_ok=True)
         shutil.copy(p, d + "/patch.diff")
         if os.path.exists(f"{src}/demo{k}.py"):
